@@ -265,6 +265,13 @@ def _malformed(drv, det, kind, x):
         a = a.reshape(1, -1) if a.ndim <= 1 else a
         wide = np.hstack([a, a[:, :1]])
         return lambda target: target.update(wide)
+    if kind.startswith("two-values-"):
+        # two values in a one-dimensional container are one observation of two columns: univariate detectors refuse it
+        v = np.asarray(x, dtype=object).reshape(-1)[0]
+        cont = kind[len("two-values-"):]
+        flat = {"list": lambda: [v, v], "tuple": lambda: (v, v), "array": lambda: np.array([v, v], dtype=object),
+                "series": lambda: pd.Series([v, v], dtype=object)}[cont]()
+        return lambda target: target.update(flat)
     if kind == "setref-extra-column":
         # a univariate batch detector must refuse a multi-column *reference* as well
         a = np.asarray(x, dtype=object)
@@ -459,6 +466,10 @@ def jobs(tier):
              ("HDM", {"cls": "CDBD", "detect_batch": 2, "statistic": "stdev"}), ("NNDVI", {"dim": 2})]
     ks = (0, 1, 2) if q else (0, 1, 2, 3)
     for det, cfg in stream_x:
+        for cont in ("list", "tuple", "array", "series"):
+            for k in (0, 1):
+                out.append(Job(f"noharm-{det}-two-values-{cont}-k{k}", "checks.c14:body_noharm",
+                               {"det": det, "cfg": cfg, "kind": f"two-values-{cont}", "k": k, "use_df": False}, expect=("compared",)))
         for kind in ("two-rows", "extra-column"):
             for k in ks:
                 out.append(Job(f"noharm-{det}-{kind}-k{k}", "checks.c14:body_noharm",
